@@ -26,52 +26,17 @@ func runC05(c *fw.Ctx) {
 	if c.Shard == 0 && bisimHook != nil {
 		bisimHook(c)
 	}
+	if corpusC05Hook != nil {
+		corpusC05Hook(c)
+	}
 	docSets(!c.Quick(), func(name string, blocks []doc.Block) {
 		if c.Expired() {
 			return
 		}
 		nodes := doc.Assemble(blocks)
 		r := doc.Render(nodes, doc.DefaultStyle())
-		var base = run1
-		var b0 = struct {
-			done bool
-			o    interface{}
-		}{}
-		_ = b0
-		baseOut := base(r.Text)
-		haveBase := true
-		check := func(w doc.Rewrite, text string) {
-			if !c.Next() {
-				return
-			}
-			c.Describe(name + " " + w.String())
-			c.Count("evaluations", 1)
-			if text == r.Text {
-				return
-			}
-			o := run1(text)
-			judged, same := sameResult(baseOut, o)
-			if !judged {
-				c.Count("skipped_crash", 1)
-				return
-			}
-			if baseOut.OK() {
-				c.Distinct(text)
-			}
-			if same {
-				c.Sample(w.Kind, 1, map[string]interface{}{"doc": name, "rewrite": w.String(), "verdict": o.Kind})
-				return
-			}
-			if fw.Confirm(func() bool { _, s := sameResult(run1(r.Text), run1(text)); return !s }) {
-				det := fmt.Sprintf("document %s, rewrite %s: baseline %s, rewritten %s", name, w, baseOut.Short(), o.Short())
-				if baseOut.OK() && o.OK() {
-					det += "; JSON differs: " + firstDiff(baseOut.JSON, o.JSON)
-				}
-				c.Violate("rewrite-changes-result", "C05:"+w.Kind+":"+argClass(w)+":"+lineKw(r, w)+":"+changeClass(baseOut, o), det,
-					map[string]interface{}{"doc": name, "rewrite": w.String(), "baseline_text": r.Text, "rewritten_text": text})
-			}
-		}
-		_ = haveBase
+		baseOut := run1(r.Text)
+		check := func(w doc.Rewrite, text string) { c05Judge(c, name, r, baseOut, w, text) }
 		for _, w := range doc.TextRewrites(r) {
 			check(w, doc.ApplyText(r, w))
 		}
@@ -107,6 +72,42 @@ func runC05(c *fw.Ctx) {
 			}
 		}
 	})
+}
+
+// corpusC05Hook runs the same rewrites over the maintainers' fixtures (set in the verif build).
+var corpusC05Hook func(c *fw.Ctx)
+
+// c05Judge runs one rewritten text and compares it with the baseline of the same document.
+func c05Judge(c *fw.Ctx, name string, r *doc.Rendered, baseOut drv.Outcome, w doc.Rewrite, text string) {
+	if !c.Next() {
+		return
+	}
+	c.Describe(name + " " + w.String())
+	c.Count("evaluations", 1)
+	if text == r.Text {
+		return
+	}
+	o := run1(text)
+	judged, same := sameResult(baseOut, o)
+	if !judged {
+		c.Count("skipped_crash", 1)
+		return
+	}
+	if baseOut.OK() {
+		c.Distinct(text)
+	}
+	if same {
+		c.Sample(w.Kind, 1, map[string]interface{}{"doc": name, "rewrite": w.String(), "verdict": o.Kind})
+		return
+	}
+	if fw.Confirm(func() bool { _, s := sameResult(run1(r.Text), run1(text)); return !s }) {
+		det := fmt.Sprintf("document %s, rewrite %s: baseline %s, rewritten %s", name, w, baseOut.Short(), o.Short())
+		if baseOut.OK() && o.OK() {
+			det += "; JSON differs: " + firstDiff(baseOut.JSON, o.JSON)
+		}
+		c.Violate("rewrite-changes-result", "C05:"+w.Kind+":"+argClass(w)+":"+lineKw(r, w)+":"+changeClass(baseOut, o), det,
+			map[string]interface{}{"doc": name, "rewrite": w.String(), "baseline_text": r.Text, "rewritten_text": text})
+	}
 }
 
 // argClass abstracts the argument of a rewrite.
@@ -149,7 +150,14 @@ func lineKw(r *doc.Rendered, w doc.Rewrite) string {
 		return w.Arg
 	}
 	if (w.Kind == "comment-line" || w.Kind == "block-comment" || w.Kind == "blank") && w.Line > 0 {
-		return "after-" + []string{"directive", "body", "text", "paren"}[r.Lines[w.Line-1].Kind]
+		k := w.Line - 1
+		for k > 0 && r.Lines[k].Kind == doc.LTrivia {
+			k-- // a fixture's own comment / blank lines: what matters is what they follow
+		}
+		if r.Lines[k].Kind == doc.LTrivia {
+			return "after-trivia"
+		}
+		return "after-" + []string{"directive", "body", "text", "paren"}[r.Lines[k].Kind]
 	}
 	if w.Line >= 0 && w.Line < len(r.Lines) && r.Lines[w.Line].Span != nil {
 		kw := r.Lines[w.Line].Span.Node.Kw
